@@ -36,6 +36,7 @@ theorem tie_h_hist_createFile : Extracted.Hist.h_hist_createFile = Canon.Hist.h_
 theorem tie_dateFormat : Extracted.Hist.dateFormat = Canon.Hist.dateFormat := by decide +kernel
 theorem tie_dateTimeFormat : Extracted.Hist.dateTimeFormat = Canon.Hist.dateTimeFormat := by decide +kernel
 theorem tie_extDat : Extracted.Hist.extDat = Canon.Hist.extDat := by decide +kernel
+theorem tie_globEscaper : Extracted.Hist.globEscaper = Canon.Hist.globEscaper := by decide +kernel
 theorem tie_rTimestamp : Extracted.Hist.rTimestamp = Canon.Hist.rTimestamp := by decide +kernel
 theorem tie_requestIDLenSafe : Extracted.Hist.requestIDLenSafe = Canon.Hist.requestIDLenSafe := by decide +kernel
 
@@ -72,6 +73,7 @@ theorem tie_requestIDLenSafe : Extracted.Hist.requestIDLenSafe = Canon.Hist.requ
 #print axioms tie_dateFormat
 #print axioms tie_dateTimeFormat
 #print axioms tie_extDat
+#print axioms tie_globEscaper
 #print axioms tie_rTimestamp
 #print axioms tie_requestIDLenSafe
 
